@@ -266,7 +266,7 @@ def main(tier: str, seed: int):
     sess = Session(PID, tier, seed, level="exploration", rule=RULE)
     sess.assume("gates and their switches are those the code defines: perf.enabled, perf.parallel.enabled, graph.enabled, t2.quality.enabled, t2.hybrid.enabled, t3.allow_reflection, scheduler.enabled")
     sess.assume("non-canonical t3*/gel streams are compared with their ms timings masked; everything else bytewise")
-    total = 280 if tier == "quick" else 4000
+    total = 280 if tier == "quick" else 12000
     nchunks = par.NWORK
     per = max(1, total // nchunks)
     for ex in par.pmap(_chunk, [(tier, seed, i, per) for i in range(nchunks)]):
